@@ -228,7 +228,8 @@ func ruleC08NewSize(e *Env) {
 		}
 		gv := t[0].String()
 		switch {
-		case strings.HasPrefix(gv, "conv[") && strings.HasSuffix(gv, "(value)"):
+		case convOfValueRe.MatchString(gv):
+			// the value through uint64 (and the Size type) and nothing narrower: uint32(value) wraps
 			gv = "conv(value)"
 		case strings.HasPrefix(gv, mulTerm+"#1(conv[uint64](value),lookup#0(*size."+e.vname("size", "unitToValues")+",unit))"):
 			gv = "lo"
@@ -251,6 +252,9 @@ func ruleC08NewSize(e *Env) {
 		}
 	}
 }
+
+// convOfValueRe: conv[uint64](value), possibly inside the conversion to the named result type.
+var convOfValueRe = regexp.MustCompile(`^(conv\[uint64\]\(value\)|conv\[[A-Za-z0-9_./]*Size\]\(value\)|conv\[[A-Za-z0-9_./]*Size\]\(conv\[uint64\]\(value\)\))$`)
 
 // ruleC08Text: decision table of size.unmarshalText.
 func ruleC08Text(e *Env) {
